@@ -25,6 +25,18 @@ CHECKS = {
         note="Trusts OpenSSL (anchored to FIPS-197 app. C and SP 800-38A app. F vectors embedded in the check).",
         design="5/C16",
     ),
+    "C10": dict(
+        technique="reference-model monitor: independent TLV decoder applied to every blob the real set_config/conf_dict_to_tlv emit, compared with the operation list the dictionary denotes",
+        text="Directed dictionaries (every content length 0..254, entry sizes on/around the 117-byte limit, oversize entry first/middle/last, steered block sums, extra blocks) and 10^4-10^6 seeded random dictionaries are encoded by the real code; an independently written decoder checks framing, non-empty blocks, the 117-byte bound when every entry fits, exact operation list and order, unchanged extra blocks and the component tags.",
+        note="Trusts the decoder written from the property text; a group closed by end-of-block is accepted (statement does not require FF).",
+        design="5/C10",
+    ),
+    "C12": dict(
+        technique="reference-model monitor: independent formatter/parser/derivation model compared with ConfigId on complete single-field sweeps, configuration subsets and mutated texts",
+        text="Complete sweeps of each numeric field (customer 0..99999 w/o 9999, project/device 0..9999, version 0..99) crossed with a name list are printed, re-parsed and compared; canonical texts are parsed and re-printed; every subset of the 0x0620 naming values in 5 byte widths is derived through both constructors and compared with the model; texts matching neither documented form must raise ConfigIdFormatError. One known finding (inherent text-form ambiguity) is listed in known_findings.json.",
+        note="Trusts the model of the two documented text forms; names outside the stated domain (empty, multi-line, surrounding blanks) are not generated.",
+        design="5/C12",
+    ),
 }
 
 NOT_YET = "check not built yet in this session (see DESIGN.md section 5 for the planned monitor)"
